@@ -85,6 +85,8 @@ def mutate(src, toks, op, i, v):
     if op == "reindent":
         ls = src.splitlines(keepends=True)
         k = t.start[0] - 1
+        if k >= len(ls):
+            return src
         ls[k] = ("  " + ls[k]) if v != "\n" else ls[k].lstrip()
         return "".join(ls)
     raise ValueError(op)
